@@ -1,5 +1,5 @@
 """Correspondence for the source-to-Lean translator (gen/py2lean.py) and its run-time library (lean/Asn1/PyLite.lean):
-the *translation* of a function (driver ops KTAG, KLEN, KTOBYTES, KOIDENC, KOIDDEC, KTIME, KREAL, KREALDEC, KDECLEN, KDECTAG, KOCTCHUNK, KSETOF, KWREAD, KWMARK, KREADTURN, PYBIO, KCRANGE, KCSIZE, KCSINGLE, KCALPHA, KCERBOOL, KWRAP, KINTDEC; PYFROMBYTES) and the function itself in /repo are
+the *translation* of a function (driver ops KTAG, KLEN, KTOBYTES, KOIDENC, KOIDDEC, KTIME, KREAL, KREALDEC, KDECLEN, KDECTAG, KOCTCHUNK, KSETOF, KWREAD, KWMARK, KREADTURN, KEOSTURN, PYBIO, KCRANGE, KCSIZE, KCSINGLE, KCALPHA, KCERBOOL, KWRAP, KINTDEC; PYFROMBYTES) and the function itself in /repo are
 run on the same arguments; the Python builtins PyLite transcribes (PYOP) are compared with CPython.
 
 A disagreement means the translator or PyLite misrepresents the code (machinery fault to repair) - it is reported as a
@@ -607,6 +607,16 @@ def check(rep, drv, seed, n=400, which=('encodeTag', 'encodeLength', 'toBytes', 
                     impl = ('ok', [-2] + list(out) + [999999, rs.tell()])
             except _err6.EndOfStreamError:
                 impl = ('err', 'EndOfStreamError')
+            # isEndOfStream on the same double (not a BytesIO: the retry-loop branch)
+            rs2 = RawStream(d, closed, cap, pos)
+            out2 = next(_st6.isEndOfStream(rs2))
+            impl2 = ('ok', ([-1] if isinstance(out2, _err6.SubstrateUnderrunError) else [-2, int(bool(out2))]) + [999999, rs2.tell()])
+            line2 = 'KEOSTURN %d %d %d %s' % (closed, cap, pos, ' '.join(map(str, d)))
+            nonlocal_done[0] += 1
+            rep.corr_checked += 1
+            ans2 = drv.ask(line2).replace('none', '-1').replace('some', '-2').replace('|', ' 999999 ')
+            if _ints(ans2) != impl2:
+                rep.disagree('KERNEL:eosTurn', line2[:300], ans2[:300], repr(impl2)[:300])
             line = 'KREADTURN %d %d %d %d %s' % (closed, cap, pos, want, ' '.join(map(str, d)))
             nonlocal_done[0] += 1
             rep.corr_checked += 1
